@@ -171,6 +171,64 @@ Proof.
   unfold l_content, shot_layers. rewrite Hl2, Hl1. reflexivity.
 Qed.
 
+(* ---- the seam to the correspondence run: shot_ops is a function of the FLAT call list the simulator issues (what
+        checks/c03_simloop_layered.py compares with the real run): every call becomes one builder operation, at the frame reached by
+        the gate calls before it ---- *)
+Definition call_ff (ff : frame * frame) (c : lcall) : frame * frame :=
+  match c with LC c' => fold_left fstep (nf_of_call A D c') ff | LI _ => ff end.
+Fixpoint flat_ops_from (ff : frame * frame) (cs : list lcall) : list (op M) :=
+  match cs with [] => [] | c :: r => lcall_op (fst ff) (snd ff) c :: flat_ops_from (call_ff ff c) r end.
+Definition flat_ops (cs : list lcall) : list (op M) := flat_ops_from (ff_one R rI) cs.
+
+(* calls whose operation does not look at the frame and that leave it alone: I, relaxation, bitflip *)
+Definition quiet (c : lcall) : Prop :=
+  match c with LI _ => True | LC c' => match idle_qubit A D c' with Some _ => True | None => False end end.
+Lemma flat_quiet f0 fi0 : forall l ff rest, Forall quiet l ->
+  flat_ops_from ff (l ++ rest) = map (lcall_op f0 fi0) l ++ flat_ops_from ff rest.
+Proof.
+  induction l as [|c l IH]; intros ff rest F; [reflexivity|]. cbn [app flat_ops_from map].
+  pose proof (Forall_inv F) as Hc. rewrite <- (IH ff rest (Forall_inv_tail F)).
+  destruct c as [c'|k]; cbn [quiet] in Hc; [|reflexivity].
+  destruct c' as [v th|k v q|k cv tv c t|v d q|k q]; cbn [idle_qubit] in Hc; try contradiction; reflexivity.
+Qed.
+
+Lemma flat_group n g ff rest : group_wf n g ->
+  flat_ops_from ff (group_calls n g ++ rest) = map (lcall_op (fst ff) (snd ff)) (group_calls n g) ++ flat_ops_from (gstep_ff ff g) rest.
+Proof.
+  destruct g as [q th|k q|k c t|q d]; cbn [group_wf SimLoopLayered.group_calls]; intros W.
+  - reflexivity.
+  - replace n with (q + S (n - S q)) by lia. rewrite seq_app, map_app. cbn [seq map Nat.add]. rewrite Nat.eqb_refl, <- app_assoc.
+    rewrite (flat_quiet (fst ff) (snd ff)).
+    2:{ apply Forall_forall. intros x Hx. apply in_map_iff in Hx as (j & <- & Hj). apply in_seq in Hj.
+        destruct (Nat.eqb_spec j q); [lia | exact I]. }
+    rewrite map_app. cbn [app map flat_ops_from]. rewrite <- app_assoc. cbn [app]. f_equal. f_equal.
+    rewrite (flat_quiet (fst ff) (snd ff)).
+    2:{ apply Forall_forall. intros x Hx. apply in_map_iff in Hx as (j & <- & Hj). apply in_seq in Hj.
+        destruct (Nat.eqb_spec j q); [lia | exact I]. }
+    destruct k; reflexivity.
+  - destruct W as (Hc & Ht & Hne). replace n with (c + S (n - S c)) by lia. rewrite seq_app, !flat_map_app. cbn [seq flat_map Nat.add].
+    rewrite Nat.eqb_refl, <- !app_assoc.
+    assert (Q : forall l, ~ In c l -> Forall quiet (flat_map (fun k0 => if k0 =? c then [LC (C2 k k0 t (N.of_nat k0) (N.of_nat t))]
+                                                                   else if k0 =? t then [] else [LI k0]) l)).
+    { intros l Hl. apply Forall_forall. intros x Hx. apply in_flat_map in Hx as (j & Hj & Hx).
+      destruct (Nat.eqb_spec j c) as [->|N]; [contradiction|]. destruct (j =? t); [destruct Hx|]. destruct Hx as [<-|[]]. exact I. }
+    rewrite (flat_quiet (fst ff) (snd ff)) by (apply Q; rewrite in_seq; lia).
+    rewrite !map_app. cbn [app map flat_ops_from]. rewrite <- !app_assoc. cbn [app]. f_equal. f_equal.
+    rewrite (flat_quiet (fst ff) (snd ff)) by (apply Q; rewrite in_seq; lia).
+    destruct k; reflexivity.
+  - rewrite (flat_quiet (fst ff) (snd ff)); [reflexivity|].
+    apply Forall_forall. intros x Hx. apply in_map_iff in Hx as (j & <- & Hj). destruct (j =? q); exact I.
+Qed.
+
+Theorem shot_ops_flat n gs : Forall (group_wf n) gs -> shot_ops n gs = flat_ops (calls_of_groups A D n gs).
+Proof.
+  intros W. unfold shot_ops, flat_ops, SimLoopLayered.calls_of_groups. generalize (ff_one R rI). induction W as [|g r Hg _ IH]; intros ff.
+  - cbn [group_ops_from flat_map app]. rewrite <- (app_nil_r (readout_l A D n)) at 2.
+    rewrite (flat_quiet (f_one R rI) (f_one R rI)); [now rewrite app_nil_r|].
+    unfold SimLoopLayered.readout_l. apply Forall_forall. intros x Hx. apply in_map_iff in Hx as (j & <- & _). exact I.
+  - cbn [group_ops_from flat_map]. rewrite <- !app_assoc, (flat_group n g ff _ Hg). f_equal. apply IH.
+Qed.
+
 (* ---- the layers: well-formed, and with the semantics of run_items ---- *)
 Lemma ids_wf n : wf_layer R n (ids (seq 0 n)).
 Proof. rewrite <- (seq_length n 0) at 1. apply wf_ids. Qed.
@@ -215,6 +273,19 @@ Qed.
 Theorem shot_layers_sem n gs psi : Forall (group_wf n) gs -> Forall group_adj gs ->
   forall b, layers_sem (shot_layers n gs) psi b = sem (run_items (nf_prog_groups gs)) psi b.
 Proof. intros W Ad b. apply (call_layers_sem_from n gs); auto. Qed.
+
+(* the three facts about one shot's calls in one statement *)
+Theorem calls_builder_layers n bk gs : 1 <= n -> Forall (group_wf n) gs -> Forall group_adj gs ->
+  shot_ops n gs = flat_ops (calls_of_groups A D n gs) /\
+  (exists s', lexec (l_init M n bk) (shot_ops n gs) = Ok (s', []) /\
+     dens (l_content M s') = shot_layers n gs /\ l_s M s' = 0 /\ l_bk M s' = bk) /\
+  Forall (wf_layer R n) (shot_layers n gs) /\ shot_layers n gs <> [] /\
+  forall psi b, layers_sem (shot_layers n gs) psi b = sem (run_items (nf_prog_groups gs)) psi b.
+Proof.
+  intros Hn W Ad. split; [now apply shot_ops_flat|]. split; [now apply shot_exec|]. split; [now apply shot_layers_wf|].
+  split; [unfold shot_layers; intros Z; apply app_eq_nil in Z as [_ Z]; discriminate|].
+  intros psi b. now apply shot_layers_sem.
+Qed.
 
 (* ---- AlternativeCircuit.statevector: psi0 itself when nothing is stored, else the backend of the class ----
    EfficientBackend(nqubit) is constructed with min_chunk_size = 3, optimal_chunk_size = 4 (backend.py:103);
